@@ -267,7 +267,11 @@ func dataflow0(d DataflowParams) *Program {
 	}
 	if d.Pre {
 		p.Stages = append(p.Stages, &Stage{Name: "PRE", Fn: "PRE", Ins: []Param{{T: IntT, Name: "n"}}})
-		top.Calls = append([]*Call{{Callee: "PRE", Binds: []Bind{{"n", Self("n")}}, Preflight: true}}, top.Calls...)
+		// two preflight checks: everything else, also inside nested
+		// pipelines, waits for both
+		top.Calls = append([]*Call{
+			{Callee: "PRE", Binds: []Bind{{"n", Self("n")}}, Preflight: true},
+			{Callee: "PRE", Alias: "PRE2", Binds: []Bind{{"n", Self("n")}}, Preflight: true}}, top.Calls...)
 	}
 
 	// element type when mapping
@@ -807,6 +811,9 @@ type FileParams struct {
 	// Slash (with Out = "d"): the producer names its directory output with
 	// a trailing slash.
 	Slash bool `json:",omitempty"`
+	// KeyField (with Out = "ms"): one key of the typed map of structs is
+	// also the name of the struct's file field.
+	KeyField bool `json:",omitempty"`
 }
 
 func (d FileParams) String() string {
@@ -831,6 +838,9 @@ func (d FileParams) String() string {
 	}
 	if d.Slash {
 		sec += " slash=true"
+	}
+	if d.KeyField {
+		sec += " keyfield=true"
 	}
 	return fmt.Sprintf("files{out=%s proj=%q prod=%s prodwrap=%v conswrap=%v consmap=%v prodmap=%v late=%v vol=%q retain=%q topout=%v mode=%s size=%d phys=%v%s}",
 		d.Out, d.Proj, d.Prod, d.ProdWrap, d.ConsWrap, d.ConsMap, d.ProdMap, d.Late, d.Vol, d.Retain, d.TopOut, d.Mode, d.Size, d.Phys, sec)
@@ -936,6 +946,9 @@ func FileFlow(d FileParams) *Program {
 	if d.ExtDir && (d.Out != "sp" || d.Prod != "filew" || d.ProdMap || d.Proj != "" || d.Phys) {
 		return nil
 	}
+	if d.KeyField && (d.Out != "ms" || d.Prod != "filew" || d.ProdMap) {
+		return nil
+	}
 	if d.Slash && (d.Out != "d" || d.Prod != "filew" || d.ProdMap || d.Proj != "" || d.ExtDir) {
 		return nil
 	}
@@ -964,6 +977,10 @@ func FileFlow(d FileParams) *Program {
 	}
 	top := &Pipeline{Name: "TOP", Ins: []Param{{T: IntT, Name: "n"}}}
 	prodCall := &Call{Callee: prod.Name, Binds: []Bind{{"n", Self("n")}}}
+	if d.KeyField {
+		prod.Ins = append(prod.Ins, Param{T: IntT, Name: "kstyle"})
+		prodCall.Binds = append(prodCall.Binds, Bind{"kstyle", Lit(Int(6))})
+	}
 	if d.Vol == "call" {
 		prodCall.Volatile = "true"
 	}
@@ -1197,6 +1214,19 @@ func FileFamily(maxDev int) []FileParams {
 			for _, late := range bools {
 				for _, topo := range bools {
 					out = append(out, FileParams{Out: "sp", Prod: "filew", ExtDir: true, Late: late, TopOut: topo, Vol: vol, Mode: mode, Size: 2})
+				}
+			}
+		}
+	}
+	// a typed map of structs one of whose keys is the name of the struct's
+	// file field, projected to that field and as a whole
+	for _, vol := range vols {
+		for _, mode := range modes {
+			for _, pr := range []string{"", "f"} {
+				for _, late := range bools {
+					for _, topo := range bools {
+						out = append(out, FileParams{Out: "ms", Proj: pr, Prod: "filew", KeyField: true, Late: late, TopOut: topo, Vol: vol, Mode: mode, Size: 2})
+					}
 				}
 			}
 		}
